@@ -43,9 +43,11 @@ type config struct {
 	NoEmpty  bool      `json:"noempty"` // value 1 is not the empty value (proof runs)
 	// full projection check only on the last CheckLast steps of a behaviour (0 = every step):
 	// for edge emission, where every proper prefix of a behaviour is a behaviour of its own
-	CheckLast int `json:"checklast"`
-	Proofs    int `json:"proofs"` // proofs mode: probes per tree state
-	BitFlips  int `json:"bitflips"`
+	CheckLast int   `json:"checklast"`
+	Proofs    int   `json:"proofs"` // proofs mode: probes per tree state
+	BitFlips  int   `json:"bitflips"`
+	SvSample  int   `json:"svsample"` // version steps: contents of this many retained versions are swept (0 = all); hashes always of all
+	Seed      int64 `json:"seed"`     // replay of a stored case: the seed of its sampled sweeps
 }
 
 // ------------------------------------------------------------------ key / value tables
@@ -127,6 +129,13 @@ type env struct {
 	trace   []hrec            // family mode: hashes by position
 	states  int
 	light   bool // this step: cheap projection only
+	cur     opt  // options of the open handle
+	dirty   bool // spec: the session had staged writes before this step
+	// iavl with fast storage: LoadVersion was called on a session with unsaved writes, whose
+	// unsaved fast-node additions / removals it keeps (finding F-C30-1): reads are classified
+	prevWk      string // history key of the working tree after the previous step
+	tainted     bool
+	taintOnDisk bool // ... and a SaveVersion wrote the stale fast nodes into the DB
 }
 
 type hrec struct {
@@ -163,6 +172,11 @@ func (e *env) cleanup() {
 }
 
 func (e *env) fail(act, what, detail string) *failure {
+	if e.tainted && what != "panic" {
+		what = "fast-storage:LoadVersion-keeps-abandoned-session"
+		act = "iavl"
+	}
+	detail = fmt.Sprintf("[open with cache=%d fast=%v] %s", e.cur.Cache, e.cur.Fast, detail)
 	return &failure{key: fmt.Sprintf("%s:%s:%s", e.cfg.Prop, act, what), what: detail, step: e.idx}
 }
 
@@ -376,6 +390,8 @@ func (e *env) open(o opt) *failure {
 		return e.fail("Open", "error", fmt.Sprintf("opening the tree with %+v failed: %v", o, err))
 	}
 	e.t = t
+	e.cur = o
+	e.tainted = e.taintOnDisk
 	return nil
 }
 
@@ -421,7 +437,7 @@ func (e *env) step(s mbt.Step) *failure {
 	act := s.Act()
 	exp := s["reply"]
 	switch act {
-	case "Init":
+	case "Init", "Finish":
 	case "Set":
 		upd, err := e.t.Set(e.key(s.Int("k")), e.vals[s.Int("v")])
 		got := "new"
@@ -512,17 +528,26 @@ func (e *env) step(s mbt.Step) *failure {
 			return e.fail(act, "reply", fmt.Sprintf("SaveVersion = %s (version %d, error %v), spec %v (version %d)", got, v, err, exp, s.Int("v")))
 		}
 		if got == "ok" {
+			e.taintOnDisk = e.tainted
 			if f := e.noteVerHash(act, int(v), h, "returned by SaveVersion"); f != nil {
 				return f
+			}
+			// the version is the working tree of the step before: same history, same hash
+			if wh, ok := e.wkHash[e.prevWk]; ok && e.cfg.Hashes && !bytes.Equal(wh, h) {
+				return e.fail(act, "hash:save", fmt.Sprintf("SaveVersion returns %x for version %d, WorkingHash() just before it was %x (history key %s)", h, v, wh, clipS(e.prevWk)))
 			}
 		}
 	case "Rollback":
 		e.t.Rollback()
+		e.tainted = e.taintOnDisk
 	case "LoadVersion":
 		ret, err := e.t.LoadVersion(int64(s.Int("v")))
 		got := "ok"
 		if err != nil {
 			got = "err"
+		}
+		if got == "ok" && e.dirty && e.cfg.Impl == "iavl" && e.cur.Fast {
+			e.tainted = true
 		}
 		if got != exp || (got == "ok" && int(ret) != s.Int("ret")) {
 			return e.fail(act, "reply", fmt.Sprintf("LoadVersion(%d) = %s (returned %d, error %v), spec %v (returns %d)", s.Int("v"), got, ret, err, exp, s.Int("ret")))
@@ -695,7 +720,8 @@ func (e *env) exportImport(s mbt.Step) *failure {
 	e.closeReaders()
 	e.t.Close()
 	e.db.Close()
-	e.t, e.db = nt, ndb
+	e.t, e.db, e.cur = nt, ndb, o
+	e.tainted, e.taintOnDisk = false, false
 	return nil
 }
 
@@ -719,12 +745,20 @@ func (e *env) check(s mbt.Step) *failure {
 		return nil
 	}
 	e.states++
+	defer func() { e.dirty, _ = st["dirty"].(bool) }()
 	ver := mbt.Step(st).Int("ver")
 	if int(e.t.Version()) != ver {
 		return e.fail(act, "Version", fmt.Sprintf("Version() = %d, spec %d", e.t.Version(), ver))
 	}
 	avail := ints(st["avail"])
 	got := e.t.AvailableVersions()
+	lazy := 0 // iavl: versions below the first retained one are not compared (lazy deletion, see the spec header)
+	if e.cfg.Impl == "iavl" && len(avail) > 0 {
+		lazy = avail[0]
+		for len(got) > 0 && got[0] < lazy {
+			got = got[1:]
+		}
+	}
 	if !mbt.Eq(append([]int{}, got...), append([]int{}, avail...)) {
 		return e.fail(act, "AvailableVersions", fmt.Sprintf("AvailableVersions() = %v, spec %v", got, avail))
 	}
@@ -733,7 +767,7 @@ func (e *env) check(s mbt.Step) *failure {
 		in[v] = true
 	}
 	for v := 1; v <= e.cfg.MaxVer+1; v++ {
-		if e.t.VersionExists(int64(v)) != in[v] {
+		if v >= lazy && e.t.VersionExists(int64(v)) != in[v] {
 			return e.fail(act, "VersionExists", fmt.Sprintf("VersionExists(%d) = %v, spec %v", v, !in[v], in[v]))
 		}
 	}
@@ -747,6 +781,7 @@ func (e *env) check(s mbt.Step) *failure {
 			return e.fail(act, "working:"+a, b)
 		}
 	}
+	e.prevWk = ""
 	if e.cfg.Hashes && !poisoned {
 		wk := mbt.JS(st["wk"])
 		h := e.t.Hash()
@@ -754,6 +789,7 @@ func (e *env) check(s mbt.Step) *failure {
 			return e.fail(act, "hash:working", fmt.Sprintf("WorkingHash() = %x for history key %s, earlier the same history gave %x", h, wk, old))
 		}
 		e.wkHash[wk] = append([]byte(nil), h...)
+		e.prevWk = wk
 		e.trace = append(e.trace, hrec{"w:" + wk, e.wkHash[wk], e.idx})
 		if ver > 0 {
 			if f := e.noteVerHash(act, ver, e.t.SavedHash(), "from Hash() of the tree loaded at it"); f != nil {
@@ -772,6 +808,12 @@ func (e *env) check(s mbt.Step) *failure {
 		for v := 1; v <= e.cfg.MaxVer+1; v++ {
 			snap, err := e.t.Snapshot(int64(v))
 			if !in[v] {
+				if e.cfg.Impl == "iavl" && (len(avail) == 0 || v < avail[len(avail)-1]) {
+					if err == nil {
+						snap.Close()
+					}
+					continue // iavl deletes lazily: the root of a deleted version may survive
+				}
 				if err == nil {
 					snap.Close()
 					return e.fail(act, "GetImmutable", fmt.Sprintf("GetImmutable(%d) succeeds, the version is not retained (spec versions %v)", v, avail))
@@ -784,7 +826,10 @@ func (e *env) check(s mbt.Step) *failure {
 			if err != nil {
 				return e.fail(act, "GetImmutable", fmt.Sprintf("GetImmutable(%d) failed: %v; spec versions %v", v, err, avail))
 			}
-			a, b := e.sweep(snap, e.lastSv[v-1], fmt.Sprintf("version %d", v), false)
+			a, b := "", ""
+			if e.cfg.SvSample == 0 || e.rng.Intn(len(avail)) < e.cfg.SvSample {
+				a, b = e.sweep(snap, e.lastSv[v-1], fmt.Sprintf("version %d", v), false)
+			}
 			var f *failure
 			if a == "" {
 				f = e.noteVerHash(act, v, snap.Hash(), "from a snapshot")
@@ -904,6 +949,9 @@ func main() {
 			for i := w; i < len(behs); i += nw {
 				for vi, v := range cfg.Variants {
 					seed := f.Seed*1000003 + int64(i)*31 + int64(vi)
+					if cfg.Seed != 0 {
+						seed = cfg.Seed
+					}
 					lr++
 					lsteps += int64(len(behs[i]))
 					fl, e := replay(&cfg, v, behs[i], seed, nil)
@@ -926,8 +974,9 @@ func main() {
 						c := cfg
 						c.Variants = []variant{e.v}
 						c.Variants[0].Init = false
-						mbt.Mismatch(fl.key, fmt.Sprintf("[%s %s cache=%d fast=%v] step %d: %s", cfg.Impl, e.v.DB, e.v.Cache, e.v.Fast, fl.step, fl.what),
-							map[string]any{"cfg": c, "seed": seed, "steps": slim(behs[i], fl.step)})
+						c.Seed = seed
+						mbt.Mismatch(fl.key, fmt.Sprintf("[%s %s, initially cache=%d fast=%v] step %d: %s", cfg.Impl, e.v.DB, e.v.Cache, e.v.Fast, fl.step, fl.what),
+							map[string]any{"cfg": c, "steps": slim(behs[i], fl.step)})
 					}
 				}
 			}
